@@ -12,7 +12,7 @@ class Cfg:
     def __init__(self, line):
         toks = ' '.join(line.split()[1:]).split(' ; ')
         c = toks[0].split()
-        self.nrec, self.recs = int(c[0].rstrip('rfgx')), int(c[1])      # suffix: how the reader is built (see d_reader.cc)
+        self.nrec, self.recs = int(c[0].rstrip('rfgxy')), int(c[1])      # suffix: how the reader is built (see d_reader.cc)
         self.fl = '' if c[2] == '-' else c[2]
         self.nshut = int(c[3].rstrip('tzu'))                            # suffix: the timeout Shutdown is called with
         self.acts = toks[1:]
@@ -174,7 +174,7 @@ def generate(rng, tier):
             toks = staged_toks
         # every way of building the reader (two constructors, two factory overloads, options that are refused and replaced by the
         # defaults) must give the same reader; every timeout value (zero, finite below the interval, 1us, max) for both calls
-        ctor = rng.choice(['', '', 'r', 'f', 'g', 'x'])
+        ctor = rng.choice(['', '', 'r', 'f', 'g', 'x', 'y'])
         if fl and rng.random() < 0.2:
             k = rng.randrange(len(fl))
             fl = fl[:k] + rng.choice('hu') + fl[k + 1:]
@@ -193,7 +193,7 @@ def corpus():
             # every constructor / factory overload, refused options; timeouts below the interval; Shutdown with a given timeout
             Case(f'pmr 1{c} 2 {f} 1{z} s ; ' + ' ; '.join(['t1'] * 3 + ['t0'] * 6 + ['t2'] * 8 + ['o2', 't2', 't2'] + ['t0'] * 12 + ['t4'] * 6 + ['t3'] * 8),
                  'd_pmr', ('corpus', 'pmr-ctor-' + (c or 'plain')), 'corpus')
-            for c, f, z in (('', 'h', 't'), ('r', 'u', 'z'), ('f', 'i', 'u'), ('g', 'h', ''), ('x', '2', 't'), ('x', 'u', 'z'))]
+            for c, f, z in (('', 'h', 't'), ('r', 'u', 'z'), ('f', 'i', 'u'), ('g', 'h', ''), ('x', '2', 't'), ('x', 'u', 'z'), ('y', 'i', ''), ('y', 'h', 'u'))]
 
 
 def history(case_line, out):
